@@ -57,7 +57,7 @@ TEnd ==
             \cup Flag(cur # Ev.cur \/ master # Ev.master, "csFinalDiffers")
             \cup Flag(~QuiescentOK, "csQuiescentElection")
             \cup Flag("error" \in DOMAIN Ev.st, "csStateError")
-            \cup Flag(~Ev.flush /\ "error" \notin DOMAIN Ev.st /\ LoggedNH(Ev.st) # FoldNH(EmptyFn, Ev.acked), "csRibNotFoldOfAcks"))
+            \cup Flag(~Ev.flush /\ "error" \notin DOMAIN Ev.st /\ (\A k \in 0..Len(Ev.maybe) : LoggedNH(Ev.st) # FoldNH(EmptyFn, Ev.acked \o SubSeq(Ev.maybe, 1, k))), "csRibNotFoldOfAcks"))
   /\ UNCHANGED csvars
 
 CSTNext == TStart \/ TNew \/ TDel \/ TCheck \/ TSet \/ TUpd \/ TStore \/ TCAS \/ TSnap \/ TEnd
